@@ -165,6 +165,12 @@ def gen_inputs(run):
                 out.append(("long-token", ("PROGRAM p\nVAR s : STRING; END_VAR\ns := CONCAT(s %s\n);\nEND_PROGRAM\n" % tokn).encode()))
             out.append(("long-token", ("PROGRAM p\nVAR s : STRING; END_VAR\ns := '%s';\nEND_PROGRAM\n" % body).encode()))
             out.append(("long-token", ("PROGRAM p\nVAR s : STRING; END_VAR\ns := '%s\nEND_PROGRAM\n" % body).encode()))
+        # ... and unterminated, at the offsets around 256 and 512 too
+        for lead in list(range(236, 276)) + list(range(500, 520)):
+            body = "a" * lead + ch + "b" * 3
+            out.append(("long-token", ("PROGRAM p\nVAR s : STRING; END_VAR\ns := '%s\nEND_PROGRAM\n" % body).encode()))
+            out.append(("long-token", ("PROGRAM p\nVAR s : STRING; END_VAR\n(* %s\nEND_PROGRAM\n" % body).encode()))
+            out.append(("long-token", ("PROGRAM p\nVAR s : STRING; END_VAR\ns := CONCAT(s '%s'\n);\nEND_PROGRAM\n" % body).encode()))
             out.append(("long-token", ("PROGRAM p\nVAR %s : INT; END_VAR\nEND_PROGRAM\n" % body).encode()))
     for depth in range(1, 13):
         e = "(" * depth + "1" + ")" * depth
